@@ -11,7 +11,7 @@ pub mod rng;
 pub mod runner;
 pub mod shrink;
 
-pub use ctx::{Ctx, Violation, R};
+pub use ctx::{Ctx, Focus, Violation, R};
 pub use rng::{fnv1a, splitmix64, Rng};
 pub use runner::{main_with, Scenario};
 
